@@ -1,5 +1,5 @@
 (* C03  Forward substring search returns exactly the leftmost occurrence. *)
-From Memchr Require Import Spec SpecProofs Params Sub.TwoWay Sub.TwoWayCert Sub.Searcher Sub.SearcherProofs Sub.RabinKarp.
+From Memchr Require Import Spec SpecProofs Params Sub.TwoWay Sub.TwoWayCert Sub.Searcher Sub.SearcherProofs Sub.RabinKarp Sub.TwoWayTier2.
 
 (* side conditions on generated constants *)
 Example C03_saturating_multiply : pre_mul_saturating = true.
@@ -32,9 +32,6 @@ Proof.
   split; assumption.
 Qed.
 
-(* the statement to be reached by Tier 2 (no certificate hypothesis) *)
-Definition C03_memmem_find_full : Prop := forall ar a h x,
-  bytes_ok x -> bytes_ok h -> fst (memmem_find ar a h x) = Ok (find_spec x h).
 
 (* unconditional already: needles of at most 1 byte everywhere, and of at most 32 bytes on every vector target *)
 Theorem C03_memmem_find_short_needles : forall ar a h x,
@@ -74,6 +71,30 @@ Example C03_example :
   fst (memmem_find (AX86 HasAvx2) 5 (repeat 9%N 30 ++ repeat 7%N 20 ++ repeat 8%N 20) (repeat 7%N 20 ++ repeat 8%N 20)) = Ok (Some 30).
 Proof. vm_compute. repeat split. Qed.
 
+(* Tier 2: the certificate holds for every non-empty needle (the preprocessing computes the two
+   maximal suffixes: Sub/MaxSuffixProofs.v; critical factorisation theorem: Sub/CritFact.v), so
+   the hypothesis of the _partial theorems disappears *)
+Lemma C03_cert_always : forall ar x, tw_reach_fwd ar x = true -> tw_cert_fwd_of x = true.
+Proof.
+  intros ar x H. apply tw_cert_fwd_all. unfold tw_reach_fwd in H. apply andb_true_iff in H as [H _].
+  apply Nat.leb_le in H. lia.
+Qed.
+
+(* memmem::find: EVERY needle, haystack, architecture / CPU detection outcome, start address *)
+Theorem C03_memmem_find : forall ar a an h x,
+  bytes_ok x -> bytes_ok h ->
+  fst (memmem_find ar a h x) = Ok (find_spec x h) /\
+  loads_ok a (length h) an (length x) (snd (memmem_find ar a h x)).
+Proof. intros ar a an h x Hx Hh. apply C03_memmem_find_partial; [exact Hx|exact Hh|apply C03_cert_always]. Qed.
+
+(* Finder::find / FinderBuilder: every prefilter setting and EVERY ranker function *)
+Theorem C03_finder : forall cfg (rank : N -> N) ar a h x,
+  bytes_ok x -> bytes_ok h ->
+  fst (f <- finder_new cfg rank ar x;; finder_find ar f a h) = Ok (find_spec x h).
+Proof. intros cfg rank ar a h x Hx Hh. apply C03_finder_partial; [exact Hx|exact Hh|apply C03_cert_always]. Qed.
+
+Print Assumptions C03_memmem_find.
+Print Assumptions C03_finder.
 Print Assumptions C03_memmem_find_partial.
 Print Assumptions C03_memmem_find_short_needles.
 Print Assumptions C03_finder_partial.
